@@ -664,6 +664,8 @@ func attributeIsolation(w *World, r *Report, prop string) {
 			}
 			if cls, _ := w.baseClass(fa.X); cls == "fresh" && !w.sharedThroughShallowCopy(fa.X, ins) {
 				r.pass(ruleIso, key, w.instrPos(ins), "through a fresh object")
+			} else if w.memberOfFreshArgument(fn, fa.X) {
+				r.pass(ruleIso, key, w.instrPos(ins), "through a member of the record the caller has just built, which only ever receives a fresh object")
 			} else {
 				r.fail(ruleIso, key, w.instrPos(ins), "writes an attribute object that may be the one stored in a MetaData entry and shared by every field of that type: the attribute leaks to other fields")
 			}
@@ -673,4 +675,66 @@ func attributeIsolation(w *World, r *Report, prop string) {
 		r.fail(ruleIso, "attribute writes found", "internal/parser/packet_dsl_parser.go", fmt.Sprintf("expected >= 3 attribute field writes in the model visitor, found %d", nIso))
 	}
 
+}
+
+// memberOfFreshArgument: base is p.M for a parameter p of fn; every call site of fn passes a record it has freshly built (a literal
+// of its own), and the member M - anywhere in the program - is only ever assigned a freshly built object. So p.M is not an object
+// that something else holds.
+func (w *World) memberOfFreshArgument(fn *ssa.Function, base ssa.Value) bool {
+	ld, ok := stripIdentity(base).(*ssa.UnOp)
+	if !ok || ld.Op != token.MUL {
+		return false
+	}
+	fa, ok := ld.X.(*ssa.FieldAddr)
+	if !ok {
+		return false
+	}
+	p, ok := stripIdentity(fa.X).(*ssa.Parameter)
+	if !ok {
+		return false
+	}
+	idx := -1
+	for i, q := range fn.Params {
+		if q == p {
+			idx = i
+		}
+	}
+	n := w.CallGraph().Nodes[fn]
+	if idx < 0 || n == nil || len(n.In) == 0 {
+		return false
+	}
+	for _, e := range n.In {
+		if e.Site == nil || e.Site.Common().IsInvoke() || idx >= len(e.Site.Common().Args) {
+			return false
+		}
+		if _, ok := stripIdentity(e.Site.Common().Args[idx]).(*ssa.Alloc); !ok {
+			return false
+		}
+	}
+	tn, fname, _, _ := fieldOf(fa)
+	stores := 0
+	okAll := true
+	for g := range w.allFuncs {
+		if g.Blocks == nil || !w.isSubjectFunc(g) {
+			continue
+		}
+		forEachInstr(g, func(_ *ssa.BasicBlock, ins ssa.Instruction) {
+			st, ok := ins.(*ssa.Store)
+			if !ok {
+				return
+			}
+			f2, ok := st.Addr.(*ssa.FieldAddr)
+			if !ok {
+				return
+			}
+			if t2, n2, _, _ := fieldOf(f2); t2 != tn || n2 != fname {
+				return
+			}
+			stores++
+			if _, ok := stripIdentity(st.Val).(*ssa.Alloc); !ok {
+				okAll = false
+			}
+		})
+	}
+	return okAll && stores > 0
 }
